@@ -11,9 +11,18 @@ CFG = dict(
           "counts at which a step counter n*j+i first needs a second/third byte (up to 65537 blocks) for aeskw.Wrap/Unwrap, with "
           "misaligned neighbours, spread single-byte changes, truncations and extensions; every algorithm x entry point x message "
           "lengths around 256/4096/65536 bytes and 344/87384 bytes (key-wrap counter carries) and associated data around 256/65536 "
-          "bits and bytes; rapid draws one case in 5..10 long (messages to 5120 bytes, associated data to 9000, key data to 12000 blocks). Non-trivial: a successful "
-          "operation on a non-empty message, or a rejection case whose unmutated twin succeeded. Distinct by (entry point, algorithm, "
-          "key class, lengths, mutated component and position), not by the random content.",
+          "bits and bytes; rapid draws one case in 5..10 long (messages to 5120 bytes, associated data to 9000, key data to 12000 blocks). "
+          "Multi-call sequences in one process (classes seq.*, matrix.*): 2..24 calls by one goroutine mixed over all entry points (incl. aeskw and "
+          "aescbcaead directly), algorithms, three symmetric keys (the same key material at several sizes, shared or newly built jwk.Key objects), "
+          "the fixed key pairs and message sizes 0..20000, with rejected decryptions, runtime.GC(), caller-side overwrites of a result and "
+          "GOMAXPROCS(1) sections in between; every result of the last K calls (plaintext, ciphertext, tag, wrapped/unwrapped key, RSA "
+          "ciphertext/plaintext, signature) is kept exactly as returned and compared with the reference after EVERY later call; every ordered "
+          "pair of symmetric algorithms x four size pairs as a fixed sequence; kind-mismatch probes (8 entry points x algorithm x unsuitable "
+          "fixed key, preferably the other half / another form of a key pair used earlier in the sequence) between the successful calls, and the "
+          "complete mismatch matrix before and again after every fixed key was used successfully with every algorithm it suits; the single-case "
+          "oracle also re-reads the first plaintext, ciphertext and tag after the decryption of the mutated twin. Non-trivial: a successful "
+          "operation on a non-empty message, or a rejection case whose unmutated twin succeeded. (sequences: a non-empty held result was re-verified after a later call.) Distinct by (entry point, algorithm, "
+          "key class, lengths, mutated component and position; sequences: the list of steps), not by the random content.",
      assumptions=["Go standard library crypto (AES, GCM, HMAC, RSA, ECDSA, Ed25519) and golang.org/x/crypto/chacha20poly1305 are correct: they are the interoperability peers",
                   "the harness' own RFC 3394 / RFC 7518 5.2 / PKCS#7 implementations are right (self-tested against the RFC 3394 section 4 and RFC 7518 appendix B vectors)",
                   "lestrrat-go/jwx builds jwk.Key values faithfully from raw keys",
